@@ -101,6 +101,13 @@ func (r *rewriter) rewriteCall(n *ast.CallExpr) {
 	case *ast.SelectorExpr:
 		name = f.Sel.Name
 	}
+	if id, ok := n.Fun.(*ast.Ident); ok && id.Name == "close" && len(n.Args) == 1 {
+		if _, isBuiltin := r.pkg.TypesInfo.Uses[id].(*types.Builtin); isBuiltin {
+			n.Fun = r.simrt("Close")
+			r.stats["chan-close"]++
+			return
+		}
+	}
 	if name != "WithInboxSize" || len(n.Args) != 1 {
 		return
 	}
